@@ -58,6 +58,49 @@ func badPartialComparator(m map[string]*item) []string {
 	return keys
 }
 
+func badAsymmetricComparator(m map[string]*item) []string {
+	keys := []string{}
+	for k := range m {
+		keys = append(keys, k)
+	}
+	slices.SortStableFunc(keys, func(a, b string) int {
+		_, aok := m[a]
+		_, bok := m[b]
+		switch {
+		case !aok:
+			return -1
+		case !bok:
+			return 1
+		}
+		return cmp.Compare(a, b)
+	})
+	return keys
+}
+
+func goodMirroredComparator(m map[string]*item) []string {
+	keys := []string{}
+	for k := range m {
+		keys = append(keys, k)
+	}
+	slices.SortStableFunc(keys, func(a, b string) int {
+		an, bn := m[a].name, m[b].name
+		if an == "" && bn == "" {
+			return cmp.Compare(a, b)
+		}
+		if an == "" {
+			return -1
+		}
+		if bn == "" {
+			return 1
+		}
+		if an != bn {
+			return cmp.Compare(an, bn)
+		}
+		return cmp.Compare(a, b)
+	})
+	return keys
+}
+
 func badAppendToOther(m map[string]int, deps map[string][]int) {
 	for k, v := range m {
 		deps["x"] = append(deps["x"], v)
